@@ -34,6 +34,14 @@ from nauyaca.security import tofu as tofumod  # noqa: E402
 
 # two names that differ only where SQL's LIKE has a wildcard
 HOSTS = {"h1": ("app_1.ex", 1965), "h2": ("app-1.ex", 1965), "h3": ("app_1.ex", 1966)}       # h3: h1's name on another port
+# the same three abstract hosts under other spellings ("for any host names"): names that differ only after a NUL character
+# (SQLite's own NOCASE stops comparing there), only in a LIKE wildcard's position, only in a non-ASCII letter, only in a
+# trailing dot.  Library front end only: a NUL cannot be a command-line argument.
+SPELLINGS = [dict(HOSTS),
+             {"h1": ("a\0b", 1965), "h2": ("a\0c", 1965), "h3": ("a\0b", 1966)},
+             {"h1": ("a%c.ex", 1965), "h2": ("abc.ex", 1965), "h3": ("a%c.ex", 1966)},
+             {"h1": ("\u00e9cole.ex", 1965), "h2": ("ecole.ex", 1965), "h3": ("\u00e9cole.ex", 1966)},
+             {"h1": ("app.ex", 1965), "h2": ("app.ex.", 1965), "h3": ("app.ex", 1966)}]
 FPS = {"f1": "sha256:" + "1" * 64, "f2": "sha256:" + "2" * 64}
 FP_INV = {v: k for k, v in FPS.items()}
 FOLLOWUP_HOST = ("unrelated.ex", 1965)
@@ -323,6 +331,7 @@ def main(pid="C12"):
             # a third of the operations that have a command go through the command line front end (`nauyaca tofu ...`)
             front = "cli" if (idx % 3 == 2 and op["kind"] != "trust") else "lib"
             cli_cases += front == "cli"
+            HOSTS.update(SPELLINGS[0] if front == "cli" else SPELLINGS[(idx // 3) % len(SPELLINGS)])
             # fault-free run: counts the statement boundaries of this operation
             outcome, final, nb = run_case(dbpath, work, store, op, None, None, seed, front)
             cases.append({"before": store, "op": op, "outcome": outcome, "final": final, "_fault": "none", "_front": front})
